@@ -115,6 +115,16 @@ pub fn start_async(router: Router) -> SocketAddr {
         a
     })
 }
+/// One async TCP server for `router` with a per-read timeout.
+pub fn start_async_rt(router: Router, read_timeout: Duration) -> SocketAddr {
+    runtime().block_on(async {
+        let al = AsyncServer::listen("127.0.0.1:0").await.unwrap();
+        let a = al.local_addr().unwrap();
+        let asrv = AsyncServer::new(router).read_timeout(Some(read_timeout));
+        tokio::spawn(async move { let _ = asrv.serve(al).await; });
+        a
+    })
+}
 /// One WebSocket server (already configured by the caller) at path `/repe`.
 pub fn start_ws(server: WebSocketServer) -> SocketAddr {
     runtime().block_on(async {
